@@ -7,7 +7,7 @@
     events of the file are known; [report] runs it on a fresh buffered writer in
     front of a sink that never fails. *)
 From HP Require Import Base.Bytes Base.Utf8 Base.Num Model.Scanner Model.Parser Model.Elements Model.Dates
-  Model.Tree Model.Writer Model.Reporters Model.Cli.
+  Model.Tree Model.Writer Model.Regex Model.Reporters Model.Cli.
 
 Section ComposeSpec.
   Context (NM : Num).
@@ -108,14 +108,15 @@ Section ComposeSpec.
 
   (** the reporters of the property's first sentence (register with either
       template, summary, old register, CSV log, print, single food with a
-      pattern inside the model, single element) ... *)
+      pattern inside the model -- any regular expression [parse_regex] does not
+      decline, valid or not --, single element) ... *)
   Inductive perday_reporter : reporter NM -> Prop :=
   | PD_template c d : perday_reporter (rep_template NM c d)
   | PD_summary c d : perday_reporter (rep_summary NM c d)
   | PD_old c d : perday_reporter (rep_old NM c d)
   | PD_csv_log : perday_reporter (rep_csv_log NM)
   | PD_print c : perday_reporter (rep_print NM c)
-  | PD_single_food c : plain_pattern (rc_single_food c) = true -> perday_reporter (rep_single_food NM c)
+  | PD_single_food c : parse_regex (rc_single_food c) <> ReUnmodelled -> perday_reporter (rep_single_food NM c)
   | PD_single c d : perday_reporter (rep_single NM c d).
 
   (** ... and of its second sentence *)
